@@ -8,7 +8,10 @@ EXTENDS UnitAlg
 
 (* ------------------------- the model registry ---------------------------- *)
 DV(m, l, t, th, an, lo) == <<R(m), R(l), R(t), R(th), R(an), RZero, RZero, R(lo)>>
-At(n, lg, dim, off) == [n |-> n, lg |-> R(lg), dim |-> dim, off |-> R(off), neg |-> n = "an"]
+\* pfx: the symbol is registered as SI-prefixable (kla, Mtb, ... resolve on demand; _lookup_unit_symbol then writes the
+\* derived row into the registry's table) - none of the leaves is a prefixed form (1000 is not a power of two), the
+\* prefixed names only occur in the read-only QUERIES of the registry histories
+At(n, lg, dim, off) == [n |-> n, lg |-> R(lg), dim |-> dim, off |-> R(off), neg |-> n = "an", pfx |-> n \in {"la", "tb", "ma"}]
 \* scales are 2**lg ; registries 1 and 3 hold all but xb (two objects in the same state), registry 2 holds all
 RS(reg) == IF reg = 3 THEN 1 ELSE reg   \* registry 4 (edited by histories) is a class of its own
 MRAtoms == <<
@@ -72,8 +75,28 @@ Table5 == [i \in 1..NA |-> [Table0[i] EXCEPT !.lg = Lg5(MRAtoms[i].n, @)]]
 TableOf(reg) == IF reg = 5 THEN Table5 ELSE Table0
 \* an edit: [k, sym, lg, d] ; k = "modify" (UnitRegistry.modify(sym, 2.0**lg): scale replaced, dimension/offset kept)
 \*          | "add" (add over the existing row) | "readd" (remove, then add): scale 2**lg, dimension of atom d, offset 0
+\*          (add / readd keep the symbol's prefixable flag)
 Ed(k, sym, lg, d) == [k |-> k, sym |-> sym, lg |-> lg, d |-> d]
+\* A history may also contain read-only QUERIES of the registry.  They ask, they do not define: the registry state (the
+\* table of definitions) after a query is the state before it, whatever the implementation memoises on the way.
+\*   has    `sym in registry`                 get     `registry[sym]` (SymbolNotFoundError for an unknown name)
+\*   unit   `Unit(sym, registry=registry)`    define  `define_unit(sym, ..., registry=registry)` for a name that already
+\*                                                    resolves (RuntimeError: nothing is defined)
+\*   keys / pfx / samedim / json / id         registry.keys(), .prefixable_units, .list_same_dimensions(u), .to_json(),
+\*                                            .unit_system_id
+\*   lutcopy / dcopy                          a second registry made from a copy of the table / copy.deepcopy(registry)
+\*   pickle / baseq / latex                   pickle.dumps(u), u.get_base_equivalent(), u.latex_repr  (u = Unit(sym))
+\* sym: a model atom ("la"), an SI-prefixed form of a prefixable model atom ("kla", "Mtb", "uma") or of a built-in
+\* symbol ("Merg", "km": every real registry starts from the built-in table), or a name that does not resolve ("zzq").
+QueryKinds == {"has", "get", "unit", "define", "keys", "pfx", "samedim", "json", "id", "lutcopy", "dcopy", "pickle", "baseq", "latex"}
+IsQuery(e) == e.k \in QueryKinds
+Qy(k, sym) == [k |-> k, sym |-> sym, lg |-> 0, d |-> "-"]
+\* (T) which queries make _lookup_unit_symbol derive a prefixed row and write it into the table's dict: the first
+\* resolution of a prefixed name ("cold"); afterwards the row is found directly ("warm")
+PrefixedNames == {"kla", "Mtb", "uma", "mla", "Merg", "km", "kpc"}
+Resolves(e) == e.k \in {"has", "get", "unit", "define"} /\ e.sym \in PrefixedNames
 ApplyEdit(T, e) ==
+  IF IsQuery(e) THEN T ELSE
   LET i == AIdx(e.sym) IN
   IF e.k = "modify" THEN [T EXCEPT ![i].lg = R(e.lg), ![i].neg = FALSE]
   ELSE [T EXCEPT ![i] = [lg |-> R(e.lg), dim |-> MRAtoms[AIdx(e.d)].dim, neg |-> FALSE, off |-> RZero]]
@@ -81,6 +104,16 @@ RECURSIVE TableAfter(_, _, _)
 TableAfter(T, edits, n) == IF n = 0 THEN T ELSE ApplyEdit(TableAfter(T, edits, n - 1), edits[n])
 \* the table in phase ph (0 = before any edit) of a history
 TableAt(edits, ph) == TableAfter(Table0, edits, ph)
+\* "the same registry state": phases ph-d and ph of one history are compared when their tables are equal and
+\*   (a) nothing but queries happened in between (no add / remove / modify: the plainest reading of "same state"), or
+\*   (b) the history up to ph contains no query at all (edits that were undone: the same definitions are back).
+\* Edits undone AFTER a query are deliberately left out: a prefixed row derived by the query stays in the table's dict
+\* (and goes stale under modify: C12's known finding "lutrow"), so whether that registry is "in the same state" again is
+\* open to interpretation - the statement is not stretched over it.
+SameState(edits, ph, d) ==
+  /\ TableAt(edits, ph) = TableAt(edits, ph - d)
+  /\ \/ \A x \in (ph - d + 1)..ph : IsQuery(edits[x])
+     \/ \A x \in 1..ph : ~IsQuery(edits[x])
 
 Obsify(u) == IF IsUnit(u) THEN [k |-> "unit", ex |-> u.ex, clg |-> u.clg, c1 |-> u.c1, lg |-> u.lg, neg |-> u.neg, dim |-> u.dim,
                                   off |-> u.off, reg |-> u.reg, rs |-> RS(u.reg), alien |-> FALSE, syncerr |-> 0, lgok |-> TRUE]
@@ -149,8 +182,9 @@ ModelRunT(c, T, hreg) ==
    pairs |-> [x \in DOMAIN prs |-> ModelPair(regs, prs[x])], herr |-> [x \in DOMAIN prog |-> 0], hcond |-> [x \in DOMAIN prog |-> 0], ain |-> ain, hist |-> hreg # 0]
 ModelRun(c) == ModelRunT(c, Table0, 0)
 \* law "state": the same program in every phase of the history, on the table of that phase
+\* (queries do not change the table: the set of tables of a history, each judged once)
 ModelFails(c) ==
-  IF c.law = "state" THEN UNION {Fails(ModelRunT(c, TableAt(c.edits, ph), 4)) : ph \in 0..Len(c.edits)}
+  IF c.law = "state" THEN UNION {Fails(ModelRunT(c, T, 4)) : T \in {TableAt(c.edits, ph) : ph \in 0..Len(c.edits)}}
   ELSE Fails(ModelRun(c))
 
 =============================================================================
